@@ -60,8 +60,16 @@ class Raw:
         return self.FST(self.src, 'exec')
 
     def fail(self, prop, key, what, **kw):
-        if prop in self.props and len(self.failures) < self.payload.get('max_fail', 12):
+        if prop not in self.props:
+            return
+        cap = self.payload.get('max_fail', 12)
+        if cap >= 100000:   # exhaustive listing (C10: findings are listed by exact input)
             self.failures.append(dict(key=f'{prop}.B.{key}', what=what, program=self.name, replayed=True, **kw))
+            return
+        from contracts.b_lib import room
+        ok, kn = room(self.failures, f'{prop}.B.{key}', cap)
+        if ok:
+            self.failures.append(dict(key=f'{prop}.B.{key}', what=what, program=self.name, replayed=True, _known=kn, **kw))
 
     def after_raise(self, root, src0, d0, exc, key, desc):
         for prop in ('C10', 'C12'):
